@@ -112,4 +112,17 @@ META = {
         "level_note": "trusted: the unrestricted get_array result as reference (C01/C03 decide it); independent predicate in vf/checks/c10.py",
         "technique": "runtime oracle: real partial requests vs reference filter over exhaustive boundary-endpoint ranges; storage-listing monitor",
     },
+    "C11": {
+        "level_text": (
+            "For random plugin graphs with per-output save policies, random stored subsets spread over one or "
+            "two storage frontends (readonly / take_only / exclude), targets, save= sets, request modifiers and "
+            "forbid_creation_of, a reference planner over the declared graph predicts which plugins run, what is "
+            "loaded, what is saved where and whether an explicit error is due; the real request is observed "
+            "through the compute-call log (plugins that ran, exactly-once delivery of every input row), an audit "
+            "hook on chunk-file reads (what was loaded), directory listings (what was saved), the exception type, "
+            "the ProcessorComponents of an identical get_components call and the rows returned."
+        ),
+        "level_note": "trusted: reference planner in vf/checks/c11.py (reading of the statement), audit-hook file tracer",
+        "technique": "reference-model monitor (planner) vs observed compute log / file-system audit trace / directory listings on random graphs and stored subsets",
+    },
 }
